@@ -31,6 +31,7 @@ def describe(tier):
                 "repeated with the first three requirement keys in each of the 5 other orders (first occurrence vs. string vs. numeric order). "
                 f"Flat chains with {LONG[tier]} requirement-key occurrences x operator patterns {LONG_OPS}: 2 or 3 keys cycling under all 3^k assignments, all keys "
                 "distinct under uniform assignments with <= 1 deviation (deviation-bounded). "
+                f"{len(SPELLING_EXPRS)} expressions with keys written with leading zeros (several spellings of one number = several keys) under all assignments. "
                 "Two format versions behind ONE token logic provider whose user-style evaluators answer differently: sequences of four evaluations alternating between the versions, "
                 f"for {len(HIST_SECOND)} expressions x every ordered pair of different assignments. "
                 f"Histories of depth 2: each of {len(HIST_FIRST)} first expressions (valid and invalid) under every assignment through the transformer, "
@@ -52,6 +53,7 @@ HIST_SECOND = ["[1] U [2005]", "([1] U [2005]) O [499]", "([1] O [2005]) X [499]
 LONG = {"quick": [6, 10, 11, 12, 21], "thorough": [6, 7, 8, 9, 10, 11, 12, 13, 16, 20, 21, 22, 31, 33]}
 LONG_OPS = ["U", "O", "X", "UO", "OU", "XU", "UOX"]
 HIST_OPS = ("tree", "async", "valid")
+SPELLING_EXPRS = ["[01] U [1]", "[007] O [7] U [0501]", "([01] X [1]) O [001]", "[02005] U [2005][0901]", "[0499] O [499] U [00501] U [501]"]
 ORDER_EXPRS = ["[1] U ([2005] O [499])", "([499] X [1]) O [2005] U [501]", "[2005][901] U [1] O [499]", "([1] U [2005]) O ([1] U [499])"]
 
 
@@ -75,6 +77,9 @@ def plan(tier, seed):
     # one provider, two format versions whose evaluators answer differently, evaluations alternate between the versions
     for e in range(len(HIST_SECOND)):
         items.append({"fam": "versions", "expr": e, "seed": seed})
+    # keys written with leading zeros (well-formed; a key is its token text): different spellings of one number are different keys
+    for e in range(len(SPELLING_EXPRS)):
+        items.append({"fam": "spellings", "expr": e, "seed": seed})
     for f in range(len(HIST_FIRST)):
         for op in HIST_OPS:
             items.append({"fam": "history", "first": f, "op": op, "seed": seed})
@@ -328,6 +333,18 @@ def run_item(item):
                     r.violation(v["kind"], v["case"], v["expected"], v["observed"], v["msg"])
             r.traces += 1
         r.sample({"expr": expr[:60] + "...", "L": item["L"]})
+        return r
+    if item.get("fam") == "spellings":
+        expr = SPELLING_EXPRS[item["expr"]]
+        vs, pairs, nontrivial, outcomes = check_expr(expr)
+        r.evaluations += pairs
+        r.states += pairs
+        r.transitions += 2 * pairs + 1
+        r.traces += 1
+        r.nontrivial += nontrivial
+        for v in vs:
+            r.violation(v["kind"], v["case"], v["expected"], v["observed"], v["msg"])
+        r.sample({"expr": expr, "spellings": True})
         return r
     if item.get("fam") == "versions":
         from mc import impl_modes as M
